@@ -22,6 +22,10 @@ pub mod dcps;
 
 pub use dcps::{builtin_topics, infrastructure};
 
+#[cfg(dust_dds_verif)]
+#[doc(hidden)]
+pub mod verif_hooks;
+
 #[doc(hidden)]
 pub mod rtps;
 
